@@ -260,9 +260,22 @@ def homog_model_run(cfg):
         rows.append((float(m.t), np.array(m.x[0]).copy(), float(fl0[0, 0]), float(fl0[0, -1])))
         m.addCouplingModel(Obs())
         it = SolverType.RK4 if cfg.get("iter", "euler") == "rk4" else SolverType.EXPLICITEULER
-        for span in cfg["calls"]:
+        late = cfg.get("late_bc")          # a boundary condition given only after the first solve call: (left type, value, right type, value)
+        for ci, span in enumerate(cfg["calls"]):
+            if late and ci == 1:
+                m.setBC(Tm[late[0]], late[1], Tm[late[2]], late[3], "Y")
+                late_from = len(rows)
             m.solve(span, solverType=it, maxDtFrac=cfg.get("maxfrac", 0.1))
         minc = m.constraints.minComposition
+        if late:
+            # from the first row recorded after the change the node holds the prescribed composition (up to the minimum-composition adjustment)
+            for k in range(late_from, len(rows)):
+                for side, idx in (("left", 0), ("right", -1)):
+                    tkind, tval = (late[0], late[1]) if side == "left" else (late[2], late[3])
+                    if tkind == "comp":
+                        ev.append({"e": "rel", "group": "C04:dirichlet-given-between-solve-calls-holds-its-value", "name": "%s row %d" % (side, k),
+                                   "c": cmp3(float(rows[k][1][idx]), float(tval), rtol=0.0, atol=3 * minc), "want": "eq"})
+            bc = ("changed", 0, "changed", 0)         # the per-boundary relations below are stated for one boundary condition over the whole run
         closed = bc[0] == "flux" and bc[2] == "flux" and bc[1] == 0 and bc[3] == 0
         s0 = float(np.sum(rows[0][1]))
         for k in range(1, len(rows)):
@@ -271,7 +284,7 @@ def homog_model_run(cfg):
             clipped = bool(np.any(x1 <= minc) or np.any(x1 >= 1 - minc))
             ev.append({"e": "rel", "group": "C04:time-increasing", "name": "row %d" % k, "c": cmp3(t1, t0, rtol=0.0), "want": "gt"})
             ev.append({"e": "rel", "group": "C04:bounds", "name": "row %d" % k, "c": "eq" if (np.all(x1 >= minc) and np.all(x1 <= 1 - minc)) else "gt", "want": "eq"})
-            if cfg.get("iter", "euler") == "euler" and not clipped:
+            if cfg.get("iter", "euler") == "euler" and not clipped and not (late and k == late_from):      # (the user's change of a node is not a flux)
                 lhs = float(np.sum(x1) - np.sum(x0))
                 rhs = (jl - jr) * (t1 - t0) / m.dz
                 ev.append({"e": "rel", "group": "C04:balance", "name": "row %d" % k, "c": cmp3(lhs, rhs, rtol=1e-6, atol=1e-13 * N), "want": "eq"})
@@ -302,5 +315,6 @@ def homog_model_configs():
     out.append(dict(tag="homog-dirichlet-both-rk4", bc=("comp", 0.35, "comp", 0.65), calls=[4.0e5], iter="rk4", profile="linear"))
     out.append(dict(tag="homog-uniform-closed", profile="uniform", calls=[2.0e5, 2.0e5], still=True))
     out.append(dict(tag="homog-uniform-flux-bc-rk4", profile="uniform", bc=("flux", 2e-13, "flux", 0.0), calls=[3.0e5], iter="rk4"))
+    out.append(dict(tag="homog-dirichlet-given-after-first-call", calls=[2.0e5, 2.0e5, 1.0e5], late_bc=("comp", 0.4, "flux", 0.0)))
     out.append(dict(tag="homog-bounded-nocache", profile="bounded", cache=False, calls=[2.0e5, 2.0e5], eps=0.0))
     return out
